@@ -5,6 +5,7 @@ import json
 import vf
 vf.use_repo()
 from ak.ppobj import PrettyPrinter  # noqa: E402
+from ak.color import ColorsConfig  # noqa: E402
 from vf.core import sig_of  # noqa: E402
 
 ID = "C11"
@@ -154,10 +155,27 @@ def typed(o):
 
 
 _PRINTERS = {}
+_PENDING = {}
+
+ROUTES = ("no_color", "no_color", "palette_object", "palette_class", "colors_conf", "conf_and_palette_class")
+
+
+def nc_kwargs(route):
+    """the documented ways to ask a printer for a no-colour result"""
+    if route == "palette_object":
+        return dict(palette=PrettyPrinter.PPPalette(), no_color=True)
+    if route == "palette_class":
+        return dict(palette=PrettyPrinter.PPPalette, no_color=True)
+    if route == "colors_conf":
+        return dict(colors_conf=ColorsConfig(), no_color=True)
+    if route == "conf_and_palette_class":
+        return dict(colors_conf=ColorsConfig({'NUMBER': 'RED'}), palette=PrettyPrinter.PPPalette, no_color=True)
+    return dict(no_color=True)
 
 
 def judge(ctx, obj, jm, case):
     ctx.evaluated()
+    nck = nc_kwargs(case.get("route", "no_color"))
     # long-lived printers (as the module-level `pp` of the package), sometimes used for a coloured
     # rendering of the same value first
     pp = _PRINTERS.get(jm)
@@ -169,8 +187,17 @@ def judge(ctx, obj, jm, case):
             ctx.count("coloured_rendering_before_no_color")
         # the no-colour OUTPUT is what is parsed back: str(), not plain_text() (which would hide
         # escape sequences that leaked into a no-colour rendering)
-        txt = str(pp(obj, no_color=True))
+        txt = str(pp(obj, **nck))
         lines = [str(l) for l in pp(obj, no_color=True)]
+        # a result of an EARLIER call of this printer that nobody has rendered yet is rendered only now
+        held = _PENDING.pop(jm, None)
+        if held is not None and held[2] is pp:
+            ctx.count("results_rendered_after_later_calls")
+            late = str(held[0]) if len(txt) % 2 else "\n".join(str(l) for l in held[0])
+            if late != held[1]:
+                ctx.violation("result-rendered-later-shows-another-value",
+                              {"expected": held[1][:150], "got": late[:150]}, case)
+        _PENDING[jm] = (pp(obj, **nck), txt, pp)
     except Exception as err:
         ctx.violation("printing-raises", {"type": type(err).__name__, "msg": str(err)[:150]}, case)
         return
@@ -268,10 +295,12 @@ def run_shard(ctx):
                 inner = alias(rng, small)
             obj = wrap(rng, inner, rng.choice([0, 0, 1, 2, 3, 5]))
             judge(ctx, obj, jm, {"json_mode": jm, "value": obj, "coloured_first": rng.random() < 0.3,
-                                 "fresh_printer": rng.random() < 0.1})
+                                 "fresh_printer": rng.random() < 0.1, "route": rng.choice(ROUTES)})
             if i == 0:
                 ctx.sample({"json_mode": jm, "value": repr(obj)[:300]})
 
 
 def replay(ctx, case):
     judge(ctx, case["value"], case["json_mode"], case)
+    # (a later call with another value: results of the first that are still pending get rendered in it)
+    judge(ctx, {"another": ["value", 1]}, case["json_mode"], dict(case, value={"another": ["value", 1]}))
